@@ -440,14 +440,7 @@ func canonErr(err error) string {
 		info = hexTok(f.GetInfo()[0].Value)
 	}
 	msg := "type"
-	raw := f.GetMessage()
-	if v := reflect.ValueOf(err); v.Kind() == reflect.Ptr && v.Elem().Kind() == reflect.Struct {
-		if fld := v.Elem().FieldByName("MgmtError"); fld.IsValid() {
-			if me, ok := fld.Interface().(*mgmterror.MgmtError); ok && me != nil {
-				raw = me.Message
-			}
-		}
-	}
+	raw := rawMessage(err, f)
 	switch raw {
 	case "Path is invalid":
 		msg = "path"
@@ -462,6 +455,19 @@ func canonErr(err error) string {
 		info = "" // the info of a type error is the type's own text (C16), not the walker's
 	}
 	return f.GetTag() + "|" + pathToks(f.GetPath()) + "|" + info + "|" + msg
+}
+
+// the Message field itself (GetMessage of some error kinds rewrites it)
+func rawMessage(err error, f mgmterror.Formattable) string {
+	raw := f.GetMessage()
+	if v := reflect.ValueOf(err); v.Kind() == reflect.Ptr && v.Elem().Kind() == reflect.Struct {
+		if fld := v.Elem().FieldByName("MgmtError"); fld.IsValid() {
+			if me, ok := fld.Interface().(*mgmterror.MgmtError); ok && me != nil {
+				raw = me.Message
+			}
+		}
+	}
+	return raw
 }
 
 func runYPath(c Case) string {
